@@ -752,8 +752,27 @@ class ManifestRecursiveLoader:
 
         fixed_manifests = set()
         renamed_manifests = {}
-        for mpath, relpath, m in self._iter_manifests_for_path(
-                '', recursive=True):
+        manifests = self._iter_manifests_for_path('', recursive=True)
+        # a Manifest referenced from another Manifest in the same
+        # directory has to be written before the one referencing it,
+        # so that the MANIFEST entry describes its final contents
+        moved = True
+        while moved:
+            moved = False
+            for i, (mpath, relpath, m) in enumerate(manifests):
+                refs = frozenset(os.path.join(relpath, e.path)
+                                 for e in m.entries if e.tag == 'MANIFEST')
+                for j in range(i + 1, len(manifests)):
+                    if (manifests[j][1] == relpath
+                            and manifests[j][0] in refs
+                            and manifests[j][0] != mpath):
+                        manifests.insert(i, manifests.pop(j))
+                        moved = True
+                        break
+                if moved:
+                    break
+
+        for mpath, relpath, m in manifests:
             for e in m.entries:
                 if e.tag != 'MANIFEST':
                     continue
